@@ -53,9 +53,9 @@ Theorem C03_verifier_entry_sound :
     (forall x y, H x = H y -> x = y) ->
     (forall ps, o_dec O (enc ps) = DJson (JArr ps)) ->
     forall t : atree, wf H enc t -> NoDup (alldigs H enc t) -> NoDup (hdigs H enc t) -> aheight t <= 129 ->
-    forall token kbpol jwt L kb hdr0 hdr claims' a alg,
+    forall token kbpol jwt L kb hdr0 hdr claims' alg,
       sd_jwt_parts token = (jwt, L, kb) -> o_jwt O jwt = Val (hdr0, blind H enc t) ->
-      jget "_sd_alg" (blind H enc t) = JStr a -> parse_halg a = Some alg -> o_hash O alg = H ->
+      declared_halg (blind H enc t) = Some alg -> o_hash O alg = H ->
       (forall s, In s L -> In (H s) (alldigs H enc t) -> In (H s) (hdigs H enc t)) ->
       verifier_verify O token kbpol = Val (hdr, claims') ->
       hdr = hdr0 /\ claims' = drop_alg (proj H enc (ownS H L) t).
@@ -68,9 +68,9 @@ Theorem C03_verifier_entry_complete :
     (forall x y, H x = H y -> x = y) ->
     (forall ps, o_dec O (enc ps) = DJson (JArr ps)) ->
     forall t : atree, wf H enc t -> NoDup (alldigs H enc t) -> NoDup (hdigs H enc t) -> aheight t <= 129 ->
-    forall token kbpol jwt L ds hdr0 a alg,
+    forall token kbpol jwt L ds hdr0 alg,
       sd_jwt_parts token = (jwt, L, None) -> o_jwt O jwt = Val (hdr0, blind H enc t) ->
-      jget "_sd_alg" (blind H enc t) = JStr a -> parse_halg a = Some alg -> o_hash O alg = H ->
+      declared_halg (blind H enc t) = Some alg -> o_hash O alg = H ->
       jget "cnf" (blind H enc t) = JNull ->
       NoDup L -> (forall s, In s L -> In (H s) (alldigs H enc t) -> In (H s) (hdigs H enc t)) ->
       decode_all H (o_dec O) L = Ok ds ->
